@@ -4,6 +4,7 @@ Algebraic laws checked on the real NsHandler.splitname against a reference writt
 statement (vlib: ref_split below), over generated spellings for every bundled site configuration.
 """
 import copy
+import json
 import random
 import re
 
@@ -276,6 +277,70 @@ def run_shard(desc, R):
                     R.case(h64(lang, title, dns), True)
                     idem(tuple(res), title, dns, tag)
     site_stability(R, rnd)
+    if desc["shard"] < 3:
+        error_then_retry(R, rnd)
+
+
+def error_then_retry(R, rnd):
+    """a transient I/O error while a site's configuration is first read must not stick: asked again, the site is
+    either read properly or the error is raised again - never another site's configuration"""
+    import subprocess
+    import sys
+    code = r'''
+import builtins, errno, io, json, pathlib, sys
+lang = sys.argv[1]
+from mwlib.core import nshandling
+from mwlib.network import siteinfo
+nshandling.get_nshandler_for_lang("en")          # something else is cached already
+state = {"fail": 1}
+real_open, real_popen = builtins.open, pathlib.Path.open
+def flaky(path):
+    if state["fail"] and ("siteinfo-%s.json" % lang) in str(path):
+        state["fail"] -= 1
+        raise OSError(errno.EMFILE, "Too many open files", str(path))
+def o1(file, *a, **k):
+    flaky(file); return real_open(file, *a, **k)
+def o2(self, *a, **k):
+    flaky(self); return real_popen(self, *a, **k)
+builtins.open, pathlib.Path.open = o1, o2
+io.open = o1
+out = []
+for attempt in range(3):
+    try:
+        h = nshandling.get_nshandler_for_lang(lang)
+        out.append(["ok", list(h.splitname("user:schmir x", 0))])
+    except OSError as e:
+        out.append(["oserror", e.errno])
+    except Exception as e:
+        out.append(["raised", type(e).__name__])
+print("RES " + json.dumps(out))
+'''
+    for lang in rnd.sample([x for x in LANGS if x not in ("en", "simple")], 2):
+        pr = subprocess.run([sys.executable, "-c", code, lang], stdout=subprocess.PIPE, stderr=subprocess.PIPE, timeout=300)
+        res = None
+        for line in pr.stdout.decode().splitlines():
+            if line.startswith("RES "):
+                res = json.loads(line[4:])
+        if res is None:
+            R.inconc("error-then-retry probe for %s produced nothing: %s" % (lang, pr.stderr.decode()[-200:]))
+            continue
+        R.count("error_then_retry_probes")
+        with open(str(_site_path(lang)), encoding="utf-8") as f:
+            ref = Ref(json.load(f))
+        want = list(ref.split("user:schmir x", 0))
+        case = {"site": lang, "fault": "EMFILE at the first read of the site configuration", "answers": res}
+        for kind, val in res:
+            if kind == "ok" and val != want:
+                R.violation("L5:site-configuration-after-io-error", "after a transient I/O error at its first load, site %r answers "
+                            "splitname('user:schmir x') = %r; its configuration gives %r" % (lang, val, want), case)
+                break
+        if res[-1][0] != "ok":
+            R.seen("error_then_retry_last_answer", "%s:%s" % (res[-1][0], res[-1][1]))
+
+
+def _site_path(lang):
+    from mwlib.network import siteinfo
+    return siteinfo._get_path(lang)
 
 
 def site_stability(R, rnd):
